@@ -86,7 +86,8 @@ def check_history(case, ctx):
                 if target is not None:
                     m["root"] = {"k": "ref", "name": target}
                 r = Ref(m).run(o)
-                if "coalesce-absorbed-value-failure" in r.labels and "no-coalesce-value-failure" in ctx.flags:
+                if "absorbed-under-cache" in r.labels and "no-coalesce-value-failure" in ctx.flags:
+                    ctx.exclude("no-coalesce-value-failure")
                     continue
                 obj = G.root if target is None else G.ds[target]
                 got = run(obj.evaluate, o)
